@@ -139,6 +139,73 @@ def _replay_chunks_blocks(blocks):
     return n, drift
 
 
+def _units(x, scale):
+    return int(round(float(x) * scale))
+
+
+def real_law_traces(chk, quick):
+    """The recorder content produced with REAL laws (Binned ExtendedNeuber / Binned SeegerBeste, as the assessment uses them) must be the
+    content the HCM specification produces when its four law operators are the argument -> result tables of that law object
+    (stress in milli-MPa, strain in nano-strain, integer loads; Trace_HCM with LawId = "table", tolerance Tol units)."""
+    import pandas as pd
+    from pylife.materiallaws.notch_approximation_law import ExtendedNeuber, Binned
+    from pylife.materiallaws.notch_approximation_law_seegerbeste import SeegerBeste
+    LMAX, STEP = 400, 20
+    rng = random.Random(chk.seed * 733 + 5)
+    for lname, mk in (('Binned(ExtendedNeuber)', lambda: Binned(ExtendedNeuber(E=206e3, K=1184., n=0.187, K_p=3.5), float(LMAX), 25)),
+                      ('Binned(SeegerBeste)', lambda: Binned(SeegerBeste(E=206e3, K=1184., n=0.187, K_p=3.5), float(LMAX), 25))):
+        try:
+            law = mk()
+            tab = {'psig': {}, 'peps': {}, 'ssig': {}, 'seps': {}}
+            for L in range(-LMAX, LMAX + 1, STEP):
+                sg = law.stress(pd.Series([float(L)]))
+                tab['psig'][str(L)] = _units(np.ravel(sg)[0], 1e3)
+                tab['peps'][str(L)] = _units(np.ravel(law.strain(sg, pd.Series([float(L)])))[0], 1e9)
+            for d in range(-2 * LMAX, 2 * LMAX + 1, STEP):
+                sg = law.stress_secondary_branch(pd.Series([float(d)]))
+                tab['ssig'][str(d)] = _units(np.ravel(sg)[0], 1e3)
+                tab['seps'][str(d)] = _units(np.ravel(law.strain_secondary_branch(sg, pd.Series([float(d)])))[0], 1e9)
+        except Exception as ex:
+            chk.violation('real law %s could not be tabulated: %r' % (lname, ex), {'law': lname}, part='real_law')
+            continue
+        traces, meta = [], []
+        for i in range(12 if quick else 80):
+            n = rng.randint(3, 14)
+            seq = [STEP * v for v in c04.random_sequence(rng, n, LMAX // STEP)]
+            try:
+                det = hcm.new_detector(mk())
+                arr = np.asarray(seq, dtype=np.float64)
+                ev = []
+                for call in ('first', 'second'):
+                    (det.process_hcm_first if call == 'first' else det.process_hcm_second)(arr)
+                    c = det.recorder.collective
+                    rows = [{'lmin': _units(r.loads_min, 1), 'lmax': _units(r.loads_max, 1), 'smin': _units(r.S_min, 1e3), 'smax': _units(r.S_max, 1e3),
+                             'emin': _units(r.epsilon_min, 1e9), 'emax': _units(r.epsilon_max, 1e9), 'eminLF': _units(r.epsilon_min_LF, 1e9), 'emaxLF': _units(r.epsilon_max_LF, 1e9),
+                             'closed': bool(r.is_closed_hysteresis), 'zero': bool(r.is_zero_mean_stress_and_strain), 'run': int(r.run_index)} for r in c.itertuples()]
+                    ev.append({'call': call, 'samples': [int(x) for x in seq], 'flush': False, 'rows': rows,
+                               'strains': [_units(x, 1e9) for x in det.strain_values], 'nfirst': len(det.strain_values_first_run)})
+                traces.append({'law': lname, 'events': ev})
+                meta.append(seq)
+            except Exception as ex:
+                chk.violation('detector with %s raised %r' % (lname, ex), {'sequence': seq, 'law': lname}, part='real_law')
+        out = tlc.validate_traces(TRACE_TLA, os.path.join(SPEC, 'hcm', 'Trace_HCM_table.cfg'), traces, 'c05_table_' + lname[7:9], nsplit=4, extra_json={'law_table': tab})
+        chk.cov['states'] += out['states']
+        chk.cov['transitions'] += out['generated']
+        chk.part('real_law_' + lname, traces=len(traces), tlc_states=out['states'])
+        for e in out['errors']:
+            chk.machinery.append('real-law trace validation: ' + e[:400])
+        for seq, tr, v in zip(meta, traces, out['verdicts']):
+            chk.evals(1)
+            if v is None:
+                continue
+            if v[1] == 'ok':
+                chk.cov['traces_validated_against_impl'] += 1
+                chk.nontrivial((lname, tuple(seq)))
+            else:
+                chk.violation('recorder content with %s is not what the HCM specification yields with the same law (clause %s at call %d)' % (lname, v[1], v[0]),
+                              {'sequence': seq, 'law': lname}, None, tr['events'][v[0] - 1]['rows'][-2:], part='real_law')
+
+
 def record_process_history(seq, cuts, flushes, law):
     det = hcm.new_detector(hcm.ExactLaw(law))
     arr = np.asarray(seq, dtype=np.float64)
@@ -241,11 +308,12 @@ def run(chk):
         chk.cov['traces_validated_against_impl'] += acc
         if traces and law == 'asym':
             chk.sample({'recorded_trace': {'law': law, 'first_call': {k: traces[0]['events'][0][k] for k in ('call', 'samples', 'strains')}}}, cap=5)
+    real_law_traces(chk, quick)
     chk.cov['rule'] = ('TLC enumerates every load sequence over {-2..2} (x scale) up to MaxLen through the two-pass HCM specification for three abstract laws '
                        '(linear, cubic Masing, deliberately asymmetric); every sequence is replayed into FKMNonlinearDetector with the same law injected and ALL recorder '
                        'columns (loads, S, eps, LF extremes, S_a, S_m, eps_a, eps_m, R, flags, run) and the strain lists are compared exactly; seeded sub-samples are also run '
                        'negated and as batches of 2-3 proportional points (batch point = point alone). Non-trivial = >= 2 recorded hystereses. '
-                       'Recorded longer two-pass runs and raw process()/flush histories are validated by Trace_HCM.tla.')
+                       'Recorded longer two-pass runs and raw process()/flush histories are validated by Trace_HCM.tla; runs with REAL laws (Binned ExtendedNeuber / SeegerBeste) are validated against the specification driven by the tabulated law.')
     chk.cov['exhaustive'] = True
     chk.assumptions += ['the independent implementation is the TLA+ HCMNL specification, written from the procedure pyLife documents (cases a-c, Memory 1-3); the guideline text itself is not available offline',
                         'exact integer laws injected through the public constructor argument; real laws (ExtendedNeuber, SeegerBeste, Binned) are exercised by C10',
